@@ -101,6 +101,8 @@ def field_lemmas(g, f):
     it = c("FIELD_SIZE_POWER_OF_TWO")
     g.add(f"c17_{f}_FIELD_SIZE_POWER_OF_TWO", f"mmul({I(P)}, {I(mont_limbs(it))}, {I(RINV)}) == mpow_nat(2, {8 * fp['N8']}) % {I(P)} && {I(mont_limbs(it))} < {I(P)}", pr,
           "2^(8*N_8) mod p", path, it)
+    g.add(f"c17_{f}_FIELD_SIZE_POWER_OF_TWO_value", f"mpow_nat(2, {8 * fp['N8']}) % {I(P)} == {I(pow(2, 8 * fp['N8'], P))}", pr + ("C11",),
+          "the literal the abstract-field units use for FIELD_SIZE_POWER_OF_TWO", path, it)
     try:
         it = c("QUADRATIC_NON_RESIDUE_TO_TRACE")
         z = mont_limbs(it)
